@@ -125,4 +125,12 @@ CHECKS = {
         "design_ref": "DESIGN.md section 3, C09",
         "note": "Calibration-phase faults are enumerated in the calibration part once registered. The dask metadata run may surface the fault at run_mode.",
     },
+    "C19": {
+        "technique": "property-based testing of generated start histories with a harness-owned clock (same-second starts constructed), barrier-released concurrent starts and pre-populated colliding names; read-back differential of every reported file against the result bucket with the same label; before/after content hash of pre-existing files",
+        "text": "Histories of 1..6 starts (exposure, sequential and dask observation; generated save lists over 5 buckets x fits/npy/jpg; custom directory prefix) write into one parent folder that already contains "
+                "directories and a plain file with the next candidate names; the clock inside pyxel.outputs is replaced so that timestamps are equal or increasing as generated, and groups of starts run concurrently in "
+                "threads. Each start must get a fresh distinct folder, nothing pre-existing may change, every reported file must exist, sit in its run's folder and (fits/npy) equal the labelled bucket, counts must match. Exploration.",
+        "design_ref": "DESIGN.md section 3, C19",
+        "note": "The fake clock is installed from outside (attribute of pyxel.outputs.outputs) in the check's own process; no source hook. jpg: existence only.",
+    },
 }
